@@ -67,6 +67,31 @@ EDITS = [
      [("def ids(self, axis='sample'):", "def ids(self, axis='observation'):")]),
     ('desc_new_message', 'subset', 'descriptive_equality: a message text the signature file does not know', T_EQ, 'descriptive_equality',
      [('"Tables are not the same type"', '"Table types differ"')]),
+    ('upd_always_strict', 'semantic', 'update_ids: an unmapped id is refused whether strict or not', T_UPD, 'update_ids',
+     [('if strict and old_id not in id_map:', 'if old_id not in id_map:')]),
+    ('upd_inverted_test', 'semantic', 'update_ids: strict refuses the MAPPED ids', T_UPD, 'update_ids',
+     [('if strict and old_id not in id_map:', 'if strict and old_id in id_map:')]),
+    ('upd_dup_test_moved', 'semantic', 'update_ids: the early duplicate test made when NOT in place (issue 892 back)', T_UPD, 'update_ids',
+     [('        if inplace:\n            if len(updated_ids)', '        if not inplace:\n            if len(updated_ids)')]),
+    ('upd_axis_swapped', 'semantic', 'update_ids: the new ids stored on the other axis', T_UPD, 'update_ids',
+     [("if axis == 'sample':", "if axis == 'observation':")]),
+    ('upd_width_strict_only', 'semantic', 'update_ids: the old ids widen the text dtype only when strict (numpy truncates kept ids)', T_UPD, 'update_ids',
+     [('        if not strict:\n            ids =', '        if strict:\n            ids =')]),
+    ('upd_no_copy', 'semantic', 'update_ids: inplace=False works on the receiver', T_UPD, 'update_ids',
+     [('result = self if inplace else self.copy()', 'result = self')]),
+    ('upd_no_errcheck', 'semantic', 'update_ids: errcheck dropped (duplicates accepted when not in place)', T_UPD, 'update_ids',
+     [('        errcheck(result)\n', '')]),
+    ('upd_not_in_spelling', 'preserving', 'update_ids: `x not in m` written `not (x in m)`', T_UPD, 'update_ids',
+     [('old_id not in id_map', 'not (old_id in id_map)')]),
+    ('upd_else_first', 'preserving', 'update_ids: the two arms of the final axis test exchanged with the test negated', T_UPD, 'update_ids',
+     [("        if axis == 'sample':\n            result._sample_ids = updated_ids\n        else:\n            result._observation_ids = updated_ids\n",
+       "        if axis != 'sample':\n            result._observation_ids = updated_ids\n        else:\n            result._sample_ids = updated_ids\n")]),
+    ('upd_subscript', 'subset', 'update_ids: the lookup written with a conditional expression and a subscript', T_UPD, 'update_ids',
+     [('id_map.get(old_id, old_id)', 'id_map[old_id] if old_id in id_map else old_id')]),
+    ('upd_other_exception', 'subset', 'update_ids: the duplicate test raises ValueError', T_UPD, 'update_ids',
+     [('raise TableException("Duplicate IDs observed")', 'raise ValueError("Duplicate IDs observed")')]),
+    ('upd_copy_changed', 'subset', 'copy(): changed (pinned, not translated)', T_UPD, 'copy',
+     [('def copy(self):', 'def copy(self, deep=True):')]),
 ]
 
 
